@@ -1,13 +1,23 @@
 #!/bin/bash
-# like try_seed.sh but on a scratch copy of /repo (VERIF_REPO), for use while something else reads /repo
+# tools/try_seed_copy.sh <patch (absolute path)> Cxx… : the given checks against a scratch copy of /repo with the
+# patch applied (VERIF_REPO).  Works from any copy of /verif (uses the directory it lives in); the scratch copy is
+# $SEEDREPO (default /tmp/seedrepo).  The evidence of the seeded run is kept in $SEEDREPO-evidence.
 set -u
+V=$(cd "$(dirname "$0")/.." && pwd)
+S=${SEEDREPO:-/tmp/seedrepo}
 patch=$1; shift
-rm -rf /tmp/seedrepo && cp -r /repo /tmp/seedrepo && cd /tmp/seedrepo && git apply "$patch" || { echo "patch does not apply"; exit 2; }
-rm -rf /tmp/verif-evidence-backup && cp -r /verif/evidence /tmp/verif-evidence-backup
-trap '(cd /verif && python3 -c "from vlib.common import build_go, make_overlay; build_go(); from vlib import c14; c14.build_vaccess(); c14.regenerate(make_overlay())" >/dev/null 2>&1); sed -i "s#=> /tmp/seedrepo#=> /repo#" /verif/harness/go.mod; rm -rf /tmp/seed-evidence; cp -r /verif/evidence /tmp/seed-evidence; rm -rf /tmp/seedrepo /verif/evidence; mv /tmp/verif-evidence-backup /verif/evidence' EXIT
-cd /verif
+rm -rf "$S" && cp -r /repo "$S" && (cd "$S" && git apply "$patch") || { echo "patch does not apply"; exit 2; }
+rm -rf "$S-evidence-backup" && cp -r "$V/evidence" "$S-evidence-backup"
+restore() {
+  (cd "$V" && python3 -c "from vlib.common import build_go, make_overlay; build_go(); from vlib import c14; c14.build_vaccess(); c14.regenerate(make_overlay())" >/dev/null 2>&1)
+  sed -i "s#=> $S#=> /repo#" "$V/harness/go.mod"
+  rm -rf "$S-evidence"; cp -r "$V/evidence" "$S-evidence"
+  rm -rf "$S" "$V/evidence"; mv "$S-evidence-backup" "$V/evidence"
+}
+trap restore EXIT
+cd "$V"
 for p in "$@"; do
-  out=$(VERIF_REPO=/tmp/seedrepo ./check "$p" --tier "${TIER:-quick}" 2>&1); rc=$?
+  out=$(VERIF_REPO="$S" ./check "$p" --tier "${TIER:-quick}" 2>&1); rc=$?
   echo "== $p rc=$rc"
-  echo "$out" | grep -E "^(VIOLATION|KNOWN-FINDING)" | head -5
+  echo "$out" | grep -E "^(VIOLATION|KNOWN-FINDING)" | cut -c1-300 | head -5
 done
